@@ -1675,3 +1675,206 @@ theorem advance_and_ready_gated (w : World) (r : StepResult) (h : reconcile w = 
           · simp [hp]
           · simp [hd]
       · rfl
+
+/-! ### C03.ii — traffic routing is entered only with the step's pods ready (whole reconcile) -/
+
+/-- `doCanaryUpgrade` reads the rollout only through its plan and the rollback-in-batch mark -/
+theorem doCanaryUpgrade_ro (ro ro' : Rollout) (s : Sub) (wl : WL) (br : Option BR)
+    (h1 : ro'.steps = ro.steps) (h2 : ro'.rollbackInBatch = ro.rollbackInBatch) :
+    doCanaryUpgrade ro' s wl br = doCanaryUpgrade ro s wl br := by
+  unfold doCanaryUpgrade runBatchRelease desiredBR
+  rw [h1, h2]
+
+/-- a BatchRelease whose rollout-id was just patched is not accepted as "pods ready" in the same round -/
+theorem upgrade_done_unsynced (c : Ctx) (s : Sub) (h : (doCanaryUpgrade c.ro s c.wl (syncStep c).br).1 = true) :
+    (syncStep c).br = c.br := by
+  unfold syncStep at h ⊢
+  dsimp only at h ⊢
+  cases hb : c.br with
+  | none => first | exact hb | rfl | simp [hb]
+  | some b =>
+    rw [hb] at h
+    dsimp only at h ⊢
+    split
+    · rename_i hne
+      rw [if_pos hne] at h
+      exfalso
+      dsimp only at h
+      unfold doCanaryUpgrade runBatchRelease at h
+      dsimp only at h
+      split at h
+      · dsimp only at h; simp at h
+      · dsimp only at h; simp at h
+    · first | exact hb | rfl
+
+theorem podsReady_iff (st : StepState) : podsReady st = true ↔ Upgraded st := by
+  unfold podsReady Upgraded; cases st <;> simp
+
+theorem inRolling_routing (w : World) (old ns : Rollout) (s os : Sub) (wl : WL) (r : StepResult) (s' : Sub)
+    (hold : old.sub = some os) (hns : ns.sub = some s)
+    (h : inRolling w old ns s wl = .val r) (hs' : r.w.ro.sub = some s')
+    (hst : s'.state = .trafficRouting) (hch : s.state ≠ .trafficRouting ∨ s'.curIdx ≠ s.curIdx) :
+    Upgraded s.state ∨
+    ((s.state = .upgrade ∨ s.state = .init) ∧ s'.curIdx = s.curIdx ∧
+      (doCanaryUpgrade ns { s with nextIdx := s'.nextIdx } wl w.br).1 = true) := by
+  have same : ∀ (P : Prop), s'.curIdx = s.curIdx → s'.state = s.state → P := by
+    intro P h1 h2
+    rcases hch with hc | hc
+    · exact absurd (h2 ▸ hst) hc
+    · exact absurd h1 hc
+  unfold inRolling at h
+  dsimp only at h
+  rw [hold] at h
+  dsimp only at h
+  split at h
+  · cases h; dsimp only at hs'; cases hs'; exact same _ rfl rfl
+  · split at h
+    · cases h; dsimp only at hs'; rw [hns] at hs'; cases hs'; exact same _ rfl rfl
+    · split at h
+      · cases h; dsimp only at hs'; cases hs'; cases hst
+      · split at h
+        · split at h
+          · cases h; dsimp only at hs'; rw [hns] at hs'; cases hs'; exact same _ rfl rfl
+          · split at h
+            · cases h
+            · rename_i c d e hreset
+              obtain ⟨a, _, st⟩ := reset_next _ _ _ _ hreset
+              unfold toCtx at a st
+              dsimp only at a st
+              split at h
+              · cases h; unfold ofCtx at hs'; dsimp only at hs'; cases hs'; exact same _ a st
+              · split at h
+                · cases h; unfold ofCtx at hs'; dsimp only at hs'; cases hs'
+                · cases h; unfold ofCtx at hs'; dsimp only at hs'; cases hs'; exact same _ a st
+        · split at h
+          · split at h
+            · cases h
+            · split at h
+              · cases h; dsimp only at hs'; cases hs'; cases hst
+              · split at h
+                · cases h
+                · rename_i s2 j hj
+                  cases h; dsimp only at hs'; cases hs'
+                  obtain ⟨j1, j2⟩ := jump_spec _ _ _ _ hj
+                  cases j with
+                  | false => have := j1 rfl; subst this; dsimp only at hst; exact same _ rfl rfl
+                  | true => exact Or.inl ((j2 rfl).2.2.2.2.2.2 hst)
+          · split at h
+            · cases h; dsimp only at hs'; rw [hns] at hs'; cases hs'; exact same _ rfl rfl
+            · split at h
+              · cases h
+              · rename_i c e hrun
+                cases h
+                unfold ofCtx at hs'; dsimp only at hs'; cases hs'
+                obtain ⟨_, g2, _⟩ := runCanary_gated _ _ _ hrun
+                -- the status the release manager started from
+                generalize hs0 : (if s.nextIdx ≤ 0 ∨ s.nextIdx > (ns.steps.length : Int) then
+                    { s with nextIdx := nextBatchIndex ns.steps.length s.curIdx } else s) = s0 at g2 hrun
+                have hcur : s0.curIdx = s.curIdx := by rw [← hs0]; split <;> rfl
+                have hsta : s0.state = s.state := by rw [← hs0]; split <;> rfl
+                unfold toCtx at g2
+                dsimp only at g2
+                rcases g2 hst (by rw [hsta, hcur]; exact hch) with hu | ⟨hui, hcs, _, cx, cx1, cx2, cx3, cx4⟩
+                · exact Or.inl (hsta ▸ hu)
+                · right
+                  refine ⟨hsta ▸ hui, hcs.trans hcur, ?_⟩
+                  unfold UpgradeDone at cx4
+                  rw [cx2, cx3] at cx4
+                  have hsync := upgrade_done_unsynced
+                    { ro := ns, sub := s0, wl := wl, br := w.br, net := w.net, mem := w.mem } cx.sub cx4
+                  dsimp only at hsync
+                  rw [hsync] at cx4
+                  rw [doCanaryUpgrade_congr ns s { s with nextIdx := c.sub.nextIdx } wl w.br rfl,
+                      ← doCanaryUpgrade_congr ns s cx.sub wl w.br (by rw [cx1, hcur])]
+                  exact cx4
+
+theorem reconcile_nowl (w : World) (r : StepResult) (hph : w.ro.phase = .progressing) (hndel : w.ro.deleting = false)
+    (hw : w.wl = none) (h : reconcile w = .val r) : r.w.ro.sub = none ∨ r.w.ro.sub = w.ro.sub := by
+  have hfr := hf_frame w.ro
+  unfold reconcile at h
+  dsimp only at h
+  split at h
+  · cases h
+    right; dsimp only; rw [hfr]
+  · rename_i ns hcs
+    rw [hph] at h
+    dsimp only at h
+    rw [hw] at h
+    dsimp only at h
+    cases h
+    dsimp only
+    rw [hw] at hcs
+    unfold calculateStatus at hcs
+    rw [hfr] at hcs; dsimp only at hcs
+    rw [if_neg (by simp [hndel])] at hcs
+    try dsimp only at hcs
+    split at hcs
+    · cases hcs; left; rfl
+    · cases hcs
+      obtain ⟨_, d2⟩ := csDisable_same { w.ro with hasFinalizer := (handleFinalizer w.ro).1.hasFinalizer }
+      obtain ⟨_, i2⟩ := csInitial_same (csDisable { w.ro with hasFinalizer := (handleFinalizer w.ro).1.hasFinalizer })
+      right; rw [i2, d2]
+
+/-- **C03.ii (whole reconcile)** — for every world: a reconcile leaves a rolling rollout in
+    `StepTrafficRouting` of a step it was not already routing only if that step's pods were already reported
+    ready (sub-state past the upgrade), or it was in `StepUpgrade`/`BeforeStepUpgrade` of the same step and the
+    BatchRelease — as it was before this reconcile wrote anything to it — reports the step's pods ready. -/
+theorem enter_routing_gated (w : World) (r : StepResult) (h : reconcile w = .val r) : enterRoutingGated w r = true := by
+  unfold enterRoutingGated
+  cases hos : w.ro.sub with
+  | none => rfl
+  | some os =>
+  cases hs' : r.w.ro.sub with
+  | none => rfl
+  | some s' =>
+  dsimp only
+  split
+  · rename_i hc
+    obtain ⟨hnow, hrr, hst, hch⟩ := hc
+    have hnow' := hnow
+    unfold inRollingNow at hnow'
+    simp only [Bool.and_eq_true, decide_eq_true_eq, Bool.not_eq_true'] at hnow'
+    obtain ⟨⟨hph, hr⟩, hndel⟩ := hnow'
+    have unchanged : r.w.ro.sub = w.ro.sub → False := by
+      intro he
+      rw [hs', hos] at he; cases he
+      rcases hch with hc | hc
+      · exact hc hst
+      · exact hc rfl
+    cases hw : w.wl with
+    | none =>
+      rcases reconcile_nowl w r hph hndel hw h with hn | hn
+      · rw [hs'] at hn; cases hn
+      · exact absurd hn unchanged
+    | some wl =>
+      cases hcons : wl.consistent with
+      | false => exact absurd (reconcile_inconsistent w wl r hndel hw hcons h) unchanged
+      | true =>
+        obtain ⟨ns, s, hsame, hs, hcore, hreason, hrec⟩ := reconcile_inRolling w wl os hph hr hw hcons hos
+        rw [hrec] at h
+        split at h
+        · cases h
+        · rename_i r0 hir
+          split at h
+          · cases h
+            exfalso; apply unchanged
+            dsimp only; rw [hf_frame w.ro]
+          · cases h
+            simp only [subCore, Prod.mk.injEq] at hcore
+            obtain ⟨c1, _, c3, _⟩ := hcore
+            rcases inRolling_routing w w.ro ns s os wl r0 s' hos hs hir hs' hst (by rw [c3, c1]; exact hch) with hu | ⟨hui, hcs, hud⟩
+            · rw [c3] at hu
+              rw [Bool.or_eq_true]; right; exact (podsReady_iff _).mpr hu
+            · rw [Bool.or_eq_true]; left
+              rw [c3] at hui; rw [c1] at hcs
+              unfold upgradeDoneObs
+              rw [hw]
+              try dsimp only
+              rw [doCanaryUpgrade_ro w.ro ns _ wl w.br hsame.1 hsame.2.2.2.2.1,
+                  doCanaryUpgrade_congr w.ro { os with nextIdx := s'.nextIdx } { s with nextIdx := s'.nextIdx } wl w.br (by exact c1)] at hud
+              rcases hui with hui | hui
+              · simp only [hui, hcs, decide_true, Bool.true_or, Bool.or_true, Bool.true_and, Bool.and_true]
+                rw [← hui]; exact hud
+              · simp only [hui, hcs, decide_true, Bool.true_or, Bool.or_true, Bool.true_and, Bool.and_true]
+                rw [← hui]; exact hud
+  · rfl
